@@ -8,7 +8,7 @@ import (
 // (symbolic) settings in force before the call, the last cursor style written is the
 // user's default (ESC[0 q), and the cursor stands at column 0 of the first row below the
 // input. params: exit (accept|hold|abort|eof|comment|panic|makeraw), len (buffer length,
-// letters), mode (emacs|vi-insert|vi-command)
+// letters), mode (emacs|vi-insert|vi-command), alpha (nl: letters and newlines)
 func ZZ_C11_Restore() {
 	exit := zzverif.Param("exit")
 	n := zzverif.ParamInt("len")
@@ -17,8 +17,13 @@ func ZZ_C11_Restore() {
 	w := zzverif.IntRange("cols", 3, 12)
 	zzverif.WinsizeHook = func() (int, int) { return w, 24 }
 	buf := zzverif.Runes("b", n)
+	multiline := zzverif.Param("alpha") == "nl"
 	for _, r := range buf {
-		zzverif.Assume(r >= 'a' && r <= 'z')
+		if multiline {
+			zzverif.Assume((r >= 'a' && r <= 'z') || r == '\n')
+		} else {
+			zzverif.Assume(r >= 'a' && r <= 'z')
+		}
 	}
 	script := &zzverif.Script{}
 	rl := zzSession(script)
@@ -86,19 +91,51 @@ func ZZ_C11_Restore() {
 		shown = string(buf)
 	}
 	ref := zzverif.NewVT(w)
-	ref.Write(prompt+shown, zzverif.ASCIIWidth)
-	if (len(prompt)+len([]rune(shown)))%w == 0 {
-		sfx += "/row-exactly-filled"
+	if multiline {
+		// lines after the first start on a row of their own, indented like the first
+		exact, nl := false, 0
+		ref.Write(prompt, zzverif.ASCIIWidth)
+		for _, r := range shown {
+			if r == '\n' {
+				if ref.Pending {
+					exact = true
+				}
+				nl++
+				ref.Write("\r\n"+zzSpaces(len(prompt)), zzverif.ASCIIWidth)
+				continue
+			}
+			ref.Write(string(r), zzverif.ASCIIWidth)
+		}
+		if ref.Pending {
+			exact = true
+		}
+		if exact {
+			sfx += "/row-exactly-filled"
+		}
+		// one label per shape of the buffer (see C04)
+		if nl >= 2 {
+			sfx += "/newlines=2+"
+		} else {
+			sfx += "/newlines=" + string(rune('0'+nl))
+		}
+		if ref.MaxRow+1 > nl+1 {
+			sfx += ",wraps"
+		}
+	} else {
+		ref.Write(prompt+shown, zzverif.ASCIIWidth)
+		if (len(prompt)+len([]rune(shown)))%w == 0 {
+			sfx += "/row-exactly-filled"
+		}
 	}
 	zzverif.Note("out-row-col", string(rune('0'+vt.Row))+","+string(rune('0'+vt.Col))+" want row "+string(rune('0'+ref.Row+1)))
 	zzverif.Assert(vt.Col == 0, "cursor-at-column-0"+sfx)
-	// a fresh row below the input: strictly below the last input row (an input that exactly
-	// fills its row is followed by an empty wrap row), nothing printed on it
+	// a fresh row below the input: strictly below the last input row, nothing printed on it
 	empty := true
 	for c := 0; c < w; c++ {
 		if _, used := vt.Cells[[2]int{vt.Row, c}]; used {
 			empty = false
 		}
 	}
-	zzverif.Assert(vt.Row > ref.Row && vt.Row <= ref.Row+2 && empty, "cursor-on-fresh-row-below-input"+sfx)
+	// (how many blank rows lie between the input and that row is not part of the statement)
+	zzverif.Assert(vt.Row > ref.Row && empty, "cursor-on-fresh-row-below-input"+sfx)
 }
